@@ -58,3 +58,20 @@ theorem C12_returned_valid_groups (st : State) (cfg : Config) (prev : List Env) 
   exact ⟨C05_sound_groups cfg st ρ' hc h1 hH, h2⟩
 
 end PS
+
+namespace PS
+
+/-- **C05 (verdict, with task groups).** On a problem with top-level groups that has a valid schedule, a consistent
+    oracle cannot answer `unsat` to the assertions of `initialize` … -/
+theorem C05_unsat_means_no_valid_schedule_groups (cfg : Config) (st : State) (hc : InCoreS st.noGroups)
+    (hok : st.groupsOK = true) (hf : st.freshGroups = true)
+    (hunsat : ConsistentAns (initFmls cfg st) .unsat) : ¬ ∃ σ, Valid st σ := by
+  rintro ⟨σ, hv⟩
+  exact hunsat ⟨withGroups st σ (envOf st σ), C05_complete_groups cfg st σ hc hok hf hv⟩
+
+/-- … and a `sat` answer with a non-negative horizon denotes a valid schedule of the problem, groups included -/
+theorem C05_sat_means_valid_schedule_groups (cfg : Config) (st : State) (hc : InCoreS st.noGroups) (ρ : Env)
+    (hsat : ConsistentAns (initFmls cfg st) (.sat ρ)) (hH : 0 ≤ ρ.i .horizon) : Valid st (schedOf ρ) :=
+  C05_sound_groups cfg st ρ hc hsat hH
+
+end PS
